@@ -61,6 +61,22 @@ def sortByKey {α : Type} (key : α → Nat) : List α → List α
   | [] => []
   | a :: t => insertByKey key a (sortByKey key t)
 
+/-- `slice.windows(n)` (for `n ≥ 1`) -/
+def windows {α : Type} (n : Nat) : List α → List (List α)
+  | [] => []
+  | x :: xs => if (x :: xs).length < n then [] else (x :: xs).take n :: windows n xs
+
+/-- `slice.binary_search(&x).is_ok()`, literally: bisection on positions `lo..hi` -/
+def binarySearchGo (xs : List Nat) (x : Nat) : Nat → Nat → Nat → Bool
+  | 0, _, _ => false
+  | fuel + 1, lo, hi =>
+    if lo < hi then
+      let mid := lo + (hi - lo) / 2
+      let v := xs.getD mid 0
+      if v == x then true else if v < x then binarySearchGo xs x fuel (mid + 1) hi else binarySearchGo xs x fuel lo mid
+    else false
+def binarySearchOk (xs : List Nat) (x : Nat) : Bool := binarySearchGo xs x (xs.length + 1) 0 xs.length
+
 /-- `for i in v.iter_mut().take(n) { *i = f(*i) }` -/
 def mapTake {α : Type} (n : Nat) (f : α → α) (v : List α) : List α := (v.take n).map f ++ v.drop n
 
